@@ -1137,6 +1137,38 @@ func (g *G) genBgFailureCase(p *Profile, id string) *Case {
 	return c
 }
 
+// genNoStoreBackgroundCase: the request that is answered stale under stale-while-revalidate says no-store (or the reply to the
+// background validation does): what the background validation brings back is not written.
+func (g *G) genNoStoreBackgroundCase(p *Profile, id string) *Case {
+	c := &Case{ID: id, Stream: "M", SWRTimeout: p.SWRTimeouts[g.intn(len(p.SWRTimeouts))]}
+	res := g.intn(2)
+	first := tRep(0, 200, g.pick("max-age=1, stale-while-revalidate=60", "max-age=0, stale-while-revalidate=30"), Hdr{"ETag", []string{`"v1"`}})
+	reqCC := g.pick("no-store", "no-store", "no-store, max-stale=5", "max-age=100, no-store", "")
+	var h []Hdr
+	if reqCC != "" {
+		h = []Hdr{{"Cache-Control", []string{reqCC}}}
+	}
+	c.Reqs = []Req{{Gap: time.Second, Method: "GET", URL: g.urlFor(res, false)},
+		{Gap: g.pickD(3*time.Second, 5*time.Second), Method: "GET", URL: g.urlFor(res, false), Hdrs: h},
+		{Gap: g.pickD(time.Second, 2*time.Second), Method: "GET", URL: g.urlFor(res, false)},
+		{Gap: time.Second, Method: "GET", URL: g.urlFor(res, false), Hdrs: h}}
+	c.Script = []ScriptEntry{{Plain: first, Cond: first}}
+	for i := 1; i < 6; i++ {
+		cc := g.pick("max-age=60", "max-age=60, stale-while-revalidate=60", "no-store", "max-age=60")
+		full := tRep(i, 200, cc, Hdr{"ETag", []string{`"v2"`}})
+		nm := tRep(i, 304, cc, Hdr{"ETag", []string{`"v1"`}})
+		c.Script = append(c.Script, ScriptEntry{Delay: g.pickD(0, 100*time.Millisecond), Plain: full, Cond: g.pickRep(nm, full)})
+	}
+	return c
+}
+
+func (g *G) pickRep(a, b Rep) Rep {
+	if g.chance(0.5) {
+		return a
+	}
+	return b
+}
+
 func (g *G) genFor(p *Profile, id string, i int) *Case {
 	g.noVaryCC = p.Name == "spell"
 	switch {
@@ -1154,6 +1186,8 @@ func (g *G) genFor(p *Profile, id string, i int) *Case {
 		return g.genSaturatedAgeCase(p, id)
 	case p.Name == "sie" && i%8 == 5:
 		return g.genBgFailureCase(p, id)
+	case p.Name == "store" && i%10 == 2:
+		return g.genNoStoreBackgroundCase(p, id)
 	}
 	return g.genCase(p, id)
 }
